@@ -116,6 +116,13 @@ class C12(PropBase):
             for p in sc['params']:
                 p['blocking_send'] = True
             sc['threaded'] = True
+            if rng.random() < 0.4:
+                # abort variant: the peer only listens (never answers a First Frame), N_Bs = 100 ms: every multi-frame blocking send() must
+                # raise BlockingSendFailure (not BlockingSendTimeout: send_timeout is 20 s), every single-frame one must return normally
+                sc['abort_variant'] = True
+                sc['fc_timeout_ms'] = 100
+                sc['params'][1]['listen_mode'] = True
+                sc['senders'][1] = []
             sc['no_model'] = True      # the replay of threaded runs through the model is C13's correspondence; here only the callers' view is judged
             yield sc
 
@@ -132,6 +139,24 @@ class C12(PropBase):
         if sc.get('threaded'):
             res = sc.get('_result') or {}
             out = []
+            if sc.get('abort_variant'):
+                import ref
+                cfg = sc['params'][0]
+                a = sc['addrs'][0]
+                pre = ref.tx_prefix(ref.half(a, 'tx'))
+                by_id = res.get('send_exc_by_id') or {}
+                for items in sc['senders'][0]:
+                    for (rid, payload) in items:
+                        nfr = len(ref.segment(bytes(payload), prefix=pre, txdl=cfg.get('tx_data_length', 8), minlen=cfg.get('tx_data_min_length'),
+                                              padding=cfg.get('tx_padding')))
+                        got = by_id.get(rid, by_id.get(str(rid)))
+                        if nfr == 1 and got is not None:
+                            out.append(('blocking', 'single-frame blocking send() raised %s although the frame was transmitted' % got))
+                        if nfr > 1 and got != 'BlockingSendFailure':
+                            out.append(('blocking', 'multi-frame blocking send() to a peer that never answers gave %s, expected BlockingSendFailure (N_Bs 100 ms, send_timeout 20 s)' % got))
+                if res.get('stuck_senders'):
+                    out.append(('blocking', 'caller threads still blocked in send() after the layer abandoned their requests: %s' % res['stuck_senders']))
+                return out[:3]
             if res.get('send_exc'):
                 out.append(('blocking', 'blocking send() raised %s although every payload was transmitted completely (peer cooperative, no abort)' % res['send_exc'][:3]))
             if res.get('stuck_senders'):
